@@ -307,7 +307,7 @@ def _strategy(tier):
 
 CLAUSES = [
     Clause(
-        "history", _strategy, check_history, quick=150, thorough=400, shards_quick=4,
+        "history", _strategy, check_history, quick=150, thorough=3000, shards_quick=4,
         rule="history with a removal and a re-insertion/shrink, or a state in which one node set "
              "lives in two layers when the aggregation is checked; distinct by canonical JSON",
     ),
